@@ -81,7 +81,12 @@ func (w *World) AttachSocket(c *SioClient, sc *sio.ClientSocketConfig, managerEv
 	if managerEvents {
 		m := c.Manager
 		m.OnError(func(err error) { c.add("error", err.Error()) })
-		m.OnClose(func(reason sio.Reason, err error) { c.add("close", string(reason)) })
+		m.OnClose(func(reason sio.Reason, err error) {
+			if err != nil {
+				c.W.E.Log(100+c.Idx, "cli.close-error", "%v", err)
+			}
+			c.add("close", string(reason))
+		})
 		m.OnReconnect(func(attempt uint32) { c.add("reconnect", fmt.Sprint(attempt)) })
 		m.OnReconnectAttempt(func(attempt uint32) { c.add("reconnect_attempt", fmt.Sprint(attempt)) })
 		m.OnReconnectError(func(err error) { c.add("reconnect_error", err.Error()) })
